@@ -13,6 +13,10 @@ extractor per file and one location per package that is (file, package id).
 -/
 namespace Scalibr.Trace
 
+/-- a package of one file = its purl (name AND version). Equality of ids is equality of purls: the
+same name at two versions is two ids (the driver and the generator map id d and d+4 to one name at
+versions 1 and 2), and a version bump removes one id and introduces another. `trace.go` compares
+`ToPURL(pkg).String()` and `Locations[0]`, never the name alone. -/
 abbrev Pkg := Nat
 
 /-- what a chain layer does to one package-list location: nothing, (re)write it as a regular file,
